@@ -46,7 +46,7 @@ type op struct {
 	retTime     time.Time
 }
 
-var offsets = []time.Duration{-time.Millisecond, 0, 300 * time.Microsecond, time.Millisecond, 2 * time.Millisecond, 3 * time.Millisecond, 5 * time.Millisecond, 8 * time.Millisecond}
+var offsets = []time.Duration{-time.Millisecond, 0, 300 * time.Microsecond, 500*time.Microsecond - 500*time.Nanosecond, 500 * time.Microsecond, 500*time.Microsecond + 500*time.Nanosecond, time.Millisecond, 2 * time.Millisecond, 3 * time.Millisecond, 5 * time.Millisecond, 8 * time.Millisecond}
 var sleeps = []time.Duration{200 * time.Microsecond, 500 * time.Microsecond, time.Millisecond, 2 * time.Millisecond, 4 * time.Millisecond}
 
 const maxDelay = 4 * time.Millisecond
